@@ -31,4 +31,10 @@ CLAIMED["C04"] = (
     "by an independent reference of the documented law and compared within 2 us.",
     ASYNC_NOTE, "DESIGN.md §4 C04",
 )
+CLAIMED["C01"] = (
+    PBT + ": differential oracle between the two runtimes on host-side probe traces (per node, episode, seq: time, rng, state, windows, payloads, output)",
+    "Generated systems are run on the threaded runtime, the records converted and compiled (3 supergraph modes x prune), and replayed under jit from the same initial "
+    "per-node rng/params/state; the probe nodes' own traces (independent of rex recording) must agree bit for bit on every step inside the compiled horizon.",
+    ASYNC_NOTE + "; external supergraph library trusted only through rex", "DESIGN.md §4 C01",
+)
 NOT_APPLICABLE = {}
